@@ -764,7 +764,7 @@ class TaskDispatcher(object):
                     are JSON not String.
                     """
                     result = {
-                        k.capitalize(): v for k, v in execution_detail.items()
+                        k[:1].upper() + k[1:]: v for k, v in execution_detail.items()
                     }
                     resource_type = "states"
                     if resource_arn.endswith(".sync:2"):
